@@ -57,8 +57,21 @@ pub enum RemDefect {
     BadAttestationSig,
 }
 
+/// the claimed target of an otherwise valid block, relative to the tip's target
+#[derive(Clone, Copy, Debug, PartialEq, Eq, Hash, Serialize, Deserialize)]
+pub enum BitsK {
+    /// target / 2^k (more work)
+    Harder(u8),
+    /// target * 2^k (less work)
+    Easier(u8),
+    /// the network's maximum target
+    ChainMax,
+}
+
 #[derive(Clone, Debug, PartialEq, Eq, Hash, Serialize, Deserialize)]
 pub enum Op {
+    /// an empty block, correctly mined for the target it claims and with a valid proof
+    AddBits(BitsK),
     Add(Body, Delivery),
     AddBad(Body, AddDefect),
     Remove(Delivery),
@@ -76,7 +89,24 @@ pub struct C13Cfg {
     /// remembered headers, MAX_REORG_SIZE = 100, so that the reorg-depth limit is in reach)
     #[serde(default)]
     pub prefill: usize,
+    /// retarget configuration: the tracker starts from a checkpoint (as a signer configured with a
+    /// checkpoint does) `r` blocks before a retarget boundary, on a tip whose target is the
+    /// network maximum / 2^s: (r, s)
+    #[serde(default)]
+    pub retarget: Option<(u32, u32)>,
 }
+
+/// shift a target whose significant bits sit in the upper half (all targets used here do)
+fn shift_target(t: Target, left: bool, k: u8) -> Target {
+    let mut x = t.to_be_bytes();
+    let hi = u128::from_be_bytes(x[0..16].try_into().unwrap());
+    let hi = if left { hi << k } else { hi >> k };
+    x[0..16].copy_from_slice(&hi.to_be_bytes());
+    // what a header can carry
+    Target::from_compact(Target::from_be_bytes(x).to_compact_lossy())
+}
+
+const RETARGET: u32 = 2016;
 
 pub struct C13State {
     pub w: Option<World>,
@@ -169,13 +199,33 @@ impl Model for C13Model {
     }
 
     fn name(&self) -> String {
-        format!("chain13(oracles={},L={}{}{}{})", self.cfg.oracles, self.cfg.max_chain, if self.cfg.streamed { ",streamed" } else { "" }, if self.cfg.restart { ",restart" } else { "" }, if self.cfg.prefill > 0 { format!(",prefill={}", self.cfg.prefill) } else { String::new() })
+        format!("chain13(oracles={},L={}{}{}{})", self.cfg.oracles, self.cfg.max_chain, if self.cfg.streamed { ",streamed" } else { "" }, if self.cfg.restart { ",restart" } else { "" }, if self.cfg.prefill > 0 { format!(",prefill={}", self.cfg.prefill) } else { String::new() }) + &match self.cfg.retarget { Some((r, sh)) => format!(",checkpoint {} before a retarget, tip target max/2^{}", r, sh), None => String::new() }
     }
 
     fn init(&self) -> C13State {
         let mut c = WorldCfg::default();
         c.oracle_pubkeys = (0..self.cfg.oracles as u8).map(oracle_pub).collect();
         let w = World::new(c);
+        if let Some((r, sh)) = self.cfg.retarget {
+            // start from a checkpoint: height, tip header (mined for its hard target) and a filter
+            // header, nothing remembered below it
+            let maxt = lightning_signer::chain::tracker::max_target(lightning_signer::bitcoin::Network::Regtest);
+            let bits = shift_target(maxt, false, sh as u8).to_compact_lossy();
+            let header = mine(
+                lightning_signer::bitcoin::BlockHash::from_byte_array([0x42; 32]),
+                lightning_signer::bitcoin::TxMerkleNode::from_byte_array([0x24; 32]),
+                bits,
+                0,
+            );
+            let node = w.node.clone();
+            let mut t = node.get_tracker();
+            t.height = 3 * RETARGET - 1 - r;
+            t.tip = Headers(header, FilterHeader::from_byte_array([7; 32]));
+            t.headers.clear();
+            node.get_persister().update_tracker(&node.get_id(), &t).expect("store the checkpoint tracker");
+            drop(t);
+            w.end_request();
+        }
         let f = fund_channel(&w, 1, false, false);
         let mut chain = w.new_sim_chain();
         let mut bodies = vec![];
@@ -196,6 +246,19 @@ impl Model for C13Model {
         let mut v = vec![];
         if self.cfg.restart {
             v.push(Op::Restart);
+        }
+        if self.cfg.retarget.is_some() {
+            // header rules only: claimed targets on and off the boundary, valid blocks, removal
+            if s.chain.blocks.len() < self.cfg.max_chain {
+                v.push(Op::Add(Body::Empty, Delivery::Compact));
+                for k in [1u8, 2, 3] {
+                    v.push(Op::AddBits(BitsK::Harder(k)));
+                    v.push(Op::AddBits(BitsK::Easier(k)));
+                }
+                v.push(Op::AddBits(BitsK::ChainMax));
+            }
+            v.push(Op::Remove(Delivery::Compact));
+            return v;
         }
         let bodies: Vec<Body> = [Body::Empty, Body::Funding, Body::DoubleSpend].into_iter().filter(|b| self.body_valid(s, *b)).collect();
         if s.chain.blocks.len() < self.cfg.prefill + self.cfg.max_chain {
@@ -303,6 +366,45 @@ impl Model for C13Model {
                         return;
                     }
                 }
+            }
+            Op::AddBits(k) => {
+                let tip = s.chain.tip();
+                let height = s.chain.height() + 1;
+                let prev_t = tip.0.target();
+                let maxt = lightning_signer::chain::tracker::max_target(lightning_signer::bitcoin::Network::Regtest);
+                let sh = self.cfg.retarget.map(|x| x.1).unwrap_or(0) as i64;
+                // how many doublings away from the tip's target the claim nominally is
+                let (t, nominal): (Target, i64) = match k {
+                    BitsK::Harder(k) => (shift_target(prev_t, false, *k), -(*k as i64)),
+                    BitsK::Easier(k) => (shift_target(prev_t, true, *k), *k as i64),
+                    BitsK::ChainMax => (maxt, {
+                        // the tip may itself have moved away from the checkpoint's target
+                        let mut d = 0i64;
+                        let mut x = prev_t;
+                        while x < maxt && d < 64 {
+                            x = shift_target(x, true, 1);
+                            d += 1;
+                        }
+                        let _ = sh;
+                        d
+                    }),
+                };
+                let bits = t.to_compact_lossy();
+                let mut block = self.block_for(s, Body::Empty, 5);
+                let txs = block.txdata.clone();
+                block.header = mine(tip.0.block_hash(), merkle_root(&txs), bits, 0);
+                let proof = self.valid_add_proof(s, &block, &attestors);
+                let fh = filter_header_of(&block, &tip.1);
+                // the rule: off a boundary the target does not change; on a boundary it moves by
+                // at most a factor of four and never above the network maximum
+                let same = bits == tip.0.bits;
+                let expect_accept = if height % RETARGET == 0 { t <= maxt && (-2..=2).contains(&nominal) } else { same };
+                let r = self.do_add(s, &block, proof, Delivery::Compact);
+                if r.is_ok() {
+                    s.chain.blocks.push((block, fh));
+                    s.bodies.push(Body::Empty);
+                }
+                (r, expect_accept)
             }
             Op::Add(b, delivery) => {
                 let block = self.block_for(s, *b, 1);
@@ -550,7 +652,7 @@ impl Model for C13Model {
                     }
                     // "a later correct request still succeeds": probe on this world, then stop here
                     // (a rejected request leaves the state where it was, which is already explored)
-                    let probe_add = matches!(op, Op::Add(..) | Op::AddBad(..));
+                    let probe_add = matches!(op, Op::Add(..) | Op::AddBad(..) | Op::AddBits(..));
                     let pr = if probe_add {
                         let block = self.block_for(s, Body::Empty, 4);
                         let proof = self.valid_add_proof(s, &block, &attestors);
@@ -622,17 +724,26 @@ pub fn strip_saw_block(mut v: serde_json::Value) -> serde_json::Value {
 pub fn configs(tier: Tier) -> Vec<C13Cfg> {
     match tier {
         Tier::Quick => vec![
-            C13Cfg { oracles: 3, max_chain: 3, streamed: false, restart: false, prefill: 0 },
-            C13Cfg { oracles: 1, max_chain: 2, streamed: true, restart: true, prefill: 0 },
-            C13Cfg { oracles: 1, max_chain: 1, streamed: false, restart: false, prefill: 101 },
+            C13Cfg { oracles: 3, max_chain: 3, streamed: false, restart: false, prefill: 0, retarget: None },
+            C13Cfg { oracles: 1, max_chain: 2, streamed: true, restart: true, prefill: 0, retarget: None },
+            C13Cfg { oracles: 1, max_chain: 1, streamed: false, restart: false, prefill: 101, retarget: None },
+            C13Cfg { oracles: 1, max_chain: 2, streamed: false, restart: false, prefill: 0, retarget: Some((1, 6)) },
+            C13Cfg { oracles: 1, max_chain: 1, streamed: false, restart: false, prefill: 0, retarget: Some((0, 1)) },
         ],
         Tier::Thorough => vec![
-            C13Cfg { oracles: 0, max_chain: 3, streamed: true, restart: false, prefill: 0 },
-            C13Cfg { oracles: 1, max_chain: 4, streamed: true, restart: true, prefill: 0 },
-            C13Cfg { oracles: 2, max_chain: 3, streamed: false, restart: false, prefill: 0 },
-            C13Cfg { oracles: 3, max_chain: 4, streamed: true, restart: true, prefill: 0 },
-            C13Cfg { oracles: 4, max_chain: 3, streamed: false, restart: false, prefill: 0 },
-            C13Cfg { oracles: 2, max_chain: 2, streamed: true, restart: true, prefill: 101 },
+            C13Cfg { oracles: 0, max_chain: 3, streamed: true, restart: false, prefill: 0, retarget: None },
+            C13Cfg { oracles: 1, max_chain: 4, streamed: true, restart: true, prefill: 0, retarget: None },
+            C13Cfg { oracles: 2, max_chain: 3, streamed: false, restart: false, prefill: 0, retarget: None },
+            C13Cfg { oracles: 3, max_chain: 4, streamed: true, restart: true, prefill: 0, retarget: None },
+            C13Cfg { oracles: 4, max_chain: 3, streamed: false, restart: false, prefill: 0, retarget: None },
+            C13Cfg { oracles: 2, max_chain: 2, streamed: true, restart: true, prefill: 101, retarget: None },
+            C13Cfg { oracles: 1, max_chain: 3, streamed: false, restart: true, prefill: 0, retarget: Some((0, 6)) },
+            C13Cfg { oracles: 1, max_chain: 3, streamed: false, restart: true, prefill: 0, retarget: Some((1, 6)) },
+            C13Cfg { oracles: 1, max_chain: 3, streamed: false, restart: true, prefill: 0, retarget: Some((2, 6)) },
+            C13Cfg { oracles: 1, max_chain: 2, streamed: false, restart: false, prefill: 0, retarget: Some((0, 0)) },
+            C13Cfg { oracles: 1, max_chain: 2, streamed: false, restart: false, prefill: 0, retarget: Some((0, 1)) },
+            C13Cfg { oracles: 1, max_chain: 2, streamed: false, restart: false, prefill: 0, retarget: Some((1, 2)) },
+            C13Cfg { oracles: 1, max_chain: 2, streamed: false, restart: false, prefill: 0, retarget: Some((0, 3)) },
         ],
     }
 }
